@@ -195,7 +195,13 @@ func (fx *FuncExec) eval(st *State, e ast.Expr) Term {
 				t := fx.fieldRead(st, base, e.Sel.Name, func(m string) { fx.unsupported(e.Pos(), "%s", m) })
 				return t
 			case types.MethodVal:
-				// method value (not called): opaque function value
+				// method value (not called): mv_<method>(receiver), a function of the receiver
+				if fn, ok := sel.Obj().(*types.Func); ok {
+					recv := fx.eval(st, e.X)
+					name := "mv_" + sanitize(funcKeyOf(fn))
+					fx.reg.declFun(name, fmt.Sprintf("(declare-fun %s (%s) Fn)", name, recv.Sort))
+					return Term{S: "(" + name + " " + recv.S + ")", Sort: "Fn", T: fx.typeOf(e)}
+				}
 				return Term{S: fx.fresh("methodval", "Fn"), Sort: "Fn", T: fx.typeOf(e)}
 			}
 		}
